@@ -547,7 +547,7 @@ def contains_sym(x, _depth=0):
     if q is not None:
         return bool(q() if callable(q) else q)
     mod = getattr(type(x), "__module__", "") or ""
-    if mod.startswith("chempy") and _depth <= 4:
+    if (mod.startswith("chempy") or mod.startswith("contracts") or mod == "__main__") and _depth <= 4:
         d = getattr(x, "__dict__", None)
         if d and any(contains_sym(v, _depth + 1) for v in d.values()):
             return True
